@@ -250,74 +250,152 @@ static std::string run_map_line(const std::vector<std::string>& w) {
     return out;
 }
 
-static std::string run_nlfw_line(const std::vector<std::string>& w) {
-    if (w.size() < 4) return "bad-op";
-    std::string out = "ok";
-    const int fd_base = lowest_free_fd();
+// `<ref>` or `<ref>@<x>:<y>` (the location the node ref carries BEFORE the handler sees the way)
+static bool parse_ref(const std::string& t, osmium::NodeRef& out) {
     try {
-        osmium::index::map::Dummy<id_type, osmium::Location> dummy_pos;
-        osmium::index::map::Dummy<id_type, osmium::Location> dummy_neg;
-        Cur cp;
-        Cur cn;
-        std::string err;
+        std::size_t used = 0;
+        const auto at = t.find('@');
+        const std::string r = t.substr(0, at);
+        if (r.empty()) return false;
+        const long long ref = std::stoll(r, &used);
+        if (used != r.size()) return false;
+        osmium::Location loc;    // undefined
+        if (at != std::string::npos) {
+            const std::string l = t.substr(at + 1);
+            const auto c = l.find(':');
+            if (c == std::string::npos || c == 0 || c + 1 >= l.size()) return false;
+            const long long x = std::stoll(l.substr(0, c), &used);
+            if (used != c) return false;
+            const long long y = std::stoll(l.substr(c + 1), &used);
+            if (used != l.size() - c - 1) return false;
+            loc = osmium::Location{static_cast<int32_t>(x), static_cast<int32_t>(y)};
+        }
+        out = osmium::NodeRef{ref, loc};
+        return true;
+    } catch (...) {
+        return false;
+    }
+}
+
+static std::string way_tok(const osmium::Way& way, bool threw) {
+    std::string body;
+    for (const auto& nr : way.nodes()) {
+        if (!body.empty()) body += ",";
+        body += std::to_string(nr.ref()) + "=";
+        body += nr.location() == osmium::index::empty_value<osmium::Location>() ? std::string{"-"} : loc_tok(nr.location());
+    }
+    if (body.empty()) body = ".";
+    return body + (threw ? "!" : "");
+}
+
+// One handler life: the two indexes + the handler on top of them.
+struct Session {
+    osmium::index::map::Dummy<id_type, osmium::Location> dummy_pos;
+    osmium::index::map::Dummy<id_type, osmium::Location> dummy_neg;
+    Cur cp;
+    Cur cn;
+    std::unique_ptr<osmium::handler::NodeLocationsForWays<map_type, map_type>> handler;
+
+    bool open(const std::string& ipos, const std::string& ineg, bool ignore_errors, std::string& err) {
         map_type* pos = &dummy_pos;
         map_type* neg = &dummy_neg;
-        if (w[1] != "dummy") { if (!make_map(w[1], cp, err)) return err; pos = cp.map.get(); }
-        if (w[2] != "dummy") { if (!make_map(w[2], cn, err)) return err; neg = cn.map.get(); }
-        {
-            osmium::handler::NodeLocationsForWays<map_type, map_type> handler{*pos, *neg};
-            if (w[3] == "1") handler.ignore_errors();
-            std::vector<long long> n;
-            for (std::size_t t = 4; t < w.size(); ++t) {
-                const std::string& tok = w[t];
-                if (tok[0] == 'n') {
-                    if (!split_nums(tok, n) || n.size() != 3) return "bad-op";
-                    osmium::memory::Buffer buf{1024, osmium::memory::Buffer::auto_grow::yes};
-                    {
-                        osmium::builder::NodeBuilder b{buf};
-                        b.set_id(n[0]).set_location(osmium::Location{static_cast<int32_t>(n[1]), static_cast<int32_t>(n[2])});
-                    }
-                    buf.commit();
-                    handler.node(buf.get<osmium::Node>(0));
-                } else if (tok[0] == 'w') {
-                    if (tok.size() > 1 && !split_nums(tok, n, ',')) return "bad-op";
-                    if (tok.size() == 1) n.clear();
-                    osmium::memory::Buffer buf{1024, osmium::memory::Buffer::auto_grow::yes};
-                    {
-                        osmium::builder::WayBuilder b{buf};
-                        b.set_id(1);
-                        osmium::builder::WayNodeListBuilder nl{b};
-                        for (long long r : n) nl.add_node_ref(r);
-                    }
-                    buf.commit();
-                    auto& way = buf.get<osmium::Way>(0);
-                    bool threw = false;
-                    try {
-                        handler.way(way);
-                    } catch (const osmium::not_found&) {
-                        threw = true;
-                    }
-                    std::string body;
-                    for (const auto& nr : way.nodes()) {
-                        if (!body.empty()) body += ",";
-                        body += nr.location() == osmium::index::empty_value<osmium::Location>() ? std::string{"-"} : loc_tok(nr.location());
-                    }
-                    if (n.empty()) body = ".";
-                    out += " " + body + (threw ? "!" : "");
-                } else {
-                    return "bad-op";
-                }
-            }
-        }
+        if (ipos != "dummy") { if (!make_map(ipos, cp, err)) return false; pos = cp.map.get(); }
+        if (ineg != "dummy") { if (!make_map(ineg, cn, err)) return false; neg = cn.map.get(); }
+        handler.reset(new osmium::handler::NodeLocationsForWays<map_type, map_type>{*pos, *neg});
+        if (ignore_errors) handler->ignore_errors();
+        return true;
+    }
+
+    void close() {
+        handler.reset();
         cp.map.reset();
         cn.map.reset();
         for (const auto& f : cp.files) ::unlink(f.c_str());
         for (const auto& f : cn.files) ::unlink(f.c_str());
+        cp.files.clear();
+        cn.files.clear();
+    }
+};
+
+static std::string run_nlfw_line(const std::vector<std::string>& w) {
+    if (w.size() < 4) return "bad-op";
+    std::string out = "ok";
+    const int fd_base = lowest_free_fd();
+    // the way objects of the line live in their own buffers until the end of the line
+    std::vector<std::unique_ptr<osmium::memory::Buffer>> ways;
+    std::unique_ptr<Session> se{new Session};
+    try {
+        std::string err;
+        bool ign = w[3] == "1";
+        if (!se->open(w[1], w[2], ign, err)) { se->close(); close_fds_from(fd_base); return err; }
+        std::vector<long long> n;
+        for (std::size_t t = 4; t < w.size(); ++t) {
+            const std::string& tok = w[t];
+            if (tok[0] == 'n') {
+                if (!split_nums(tok, n) || n.size() != 3) { out = "bad-op"; break; }
+                osmium::memory::Buffer buf{1024, osmium::memory::Buffer::auto_grow::yes};
+                {
+                    osmium::builder::NodeBuilder b{buf};
+                    b.set_id(n[0]).set_location(osmium::Location{static_cast<int32_t>(n[1]), static_cast<int32_t>(n[2])});
+                }
+                buf.commit();
+                se->handler->node(buf.get<osmium::Node>(0));
+            } else if (tok[0] == 'w' || tok[0] == 'W') {
+                osmium::memory::Buffer* buf = nullptr;
+                if (tok[0] == 'w') {
+                    std::vector<osmium::NodeRef> refs;
+                    bool good = true;
+                    std::size_t p = 1;
+                    while (p < tok.size()) {
+                        std::size_t q = tok.find(',', p);
+                        if (q == std::string::npos) q = tok.size();
+                        osmium::NodeRef nr;
+                        if (!parse_ref(tok.substr(p, q - p), nr)) { good = false; break; }
+                        refs.push_back(nr);
+                        p = q + 1;
+                    }
+                    if (!good) { out = "bad-op"; break; }
+                    ways.emplace_back(new osmium::memory::Buffer{1024, osmium::memory::Buffer::auto_grow::yes});
+                    buf = ways.back().get();
+                    {
+                        osmium::builder::WayBuilder b{*buf};
+                        b.set_id(static_cast<osmium::object_id_type>(ways.size()));
+                        osmium::builder::WayNodeListBuilder nl{b};
+                        for (const auto& nr : refs) nl.add_node_ref(nr);
+                    }
+                    buf->commit();
+                } else {
+                    if (!split_nums(tok, n) || n.size() != 1 || n[0] < 0 || static_cast<std::size_t>(n[0]) >= ways.size()) { out = "bad-op"; break; }
+                    buf = ways[static_cast<std::size_t>(n[0])].get();
+                }
+                auto& way = buf->get<osmium::Way>(0);
+                bool threw = false;
+                try {
+                    se->handler->way(way);
+                } catch (const osmium::not_found&) {
+                    threw = true;
+                }
+                out += " " + way_tok(way, threw);
+            } else if (tok == "I") {
+                ign = true;
+                se->handler->ignore_errors();
+            } else if (tok == "C") {
+                se->handler->clear();
+            } else if (tok == "X") {
+                se->close();
+                se.reset(new Session);
+                if (!se->open(w[1], w[2], ign, err)) { out = err; break; }
+            } else {
+                out = "bad-op";
+                break;
+            }
+        }
     } catch (const std::bad_alloc&) {
         out = "exception:bad_alloc";
     } catch (const std::exception& e) {
         out = std::string{"exception:"} + e.what();
     }
+    se->close();
     close_fds_from(fd_base);
     return out;
 }
